@@ -95,3 +95,16 @@ package linking
 //@   ensures[C05] l != nil ==> l.lid == mklid(lp, hash.hd(algOf(lsys.HasherChooser, lp), encOf(chosenEnc(lsys.EncoderChooser, lp), n.val), io.blen(encOf(chosenEnc(lsys.EncoderChooser, lp), n.val))))
 //@   ensures[C05,C06] l != nil ==> commitFn.calls == old(commitFn.calls) + 1
 //@   ensures[C06] l == nil && commitFn != nil ==> commitFn.calls == old(commitFn.calls)
+
+// ---- Load / LoadPlusRaw: a node is built only from a block that passed the hash check ----
+
+//@ func (*LinkSystem).Load(lnkCtx, lnk, np) (r, err)
+//@   requires lsys != nil && lnk != nil && np != nil && lsys.DecoderChooser != nil && lsys.HasherChooser != nil
+//@   before Build assert[C06] err == nil
+//@   ensures[C06] err != nil && lsys.NodeReifier == nil ==> r == nil
+
+//@ func (*LinkSystem).LoadPlusRaw(lnkCtx, lnk, np) (r, raw, err)
+//@   requires lsys != nil && lnk != nil && np != nil && lsys.DecoderChooser != nil && lsys.HasherChooser != nil
+//@   before NewBuffer assert[C06] err == nil && carg0 == block
+//@   before Build assert[C06] err == nil
+//@   ensures[C06] err != nil && lsys.NodeReifier == nil ==> r == nil
